@@ -14,19 +14,21 @@ CASES = {'quick': 12000, 'thorough': 300000}
 PARALLEL = True
 PROOF_TIMEOUT = 1500
 RULE = ('random action programs: include tree <= 6 nodes, <= 12 actions incl. re-entrantly declared ones (depth <= 2), '
-        'histories of up to 3 commits on ONE ActionState/Configurator; repeated (equal) plain-None declarations; callables of 7 kinds '
-        '(closure, falsy callable list / __bool__ False / __len__ 0 objects, partial, bound method, no callable) receiving args/kw they check; '
+        'histories of up to 3 commits on ONE ActionState/Configurator; repeated (equal) plain-None declarations; callables of 8 kinds '
+        '(closure, falsy callable list / __bool__ False / __len__ 0 objects, partial, bound method, no callable, raising) receiving args/kw they check; '
         'in direct mode declared through ActionState.action (with and without its defaults), old-style tuples of 6/7/8 positions or ready-made dicts '
         'appended to ActionState.actions; <= 4 discriminators (truthy tuples or the falsy hashables (), frozenset(), 0, \'\') + None + Deferred, phases from {-30,-20,-10,0,5} (+ rarely order=None), declared either '
         'directly on ActionState or through real nested Configurator.include configurators, executed with '
         'execute_actions()/commit(); plus resolveConflicts() driven directly on a fresh ConflictResolverState; '
         'non-trivial = at least two actions share a non-None discriminator (so the conflict machinery decides '
         'something); distinct by full case')
-ASSUMPTIONS = ['an action without a callable is executed like any other; its (unobservable) Run event is removed from the model and specification logs',
+ASSUMPTIONS = ['a commit in which a callable raises is outside the property: only the correspondence (the plain run cut after the raising '
+               'callable started, theorem C04_raising_callable_cuts_the_run) is compared there',
+               'an action without a callable is executed like any other; its (unobservable) Run event is removed from the model and specification logs',
                'action dicts are pairwise unequal, EXCEPT repeated declarations of a None-discriminated action (equal dicts: modelled as '
                'the same action value twice; list.remove removes the first equal one); the theorems that need distinct '
                'identities (wf_ids) do not cover repetitions, the comparison with the specification does',
-               'action callables do not raise and touch the action state only by declaring further actions',
+               'action callables touch the action state only by declaring further actions; for the property theorems they do not raise',
                "order is an int for the theorems (order=None is modelled: 'order or 0', min_order = None)",
                'discriminators are compared by ==/hash; a Deferred is private to its action and its function is pure',
                'include specs are distinct (ActionState.processSpec de-duplication is not modelled)']
@@ -44,7 +46,9 @@ TECHNIQUE = ('Coq proof (induction over phases / generator steps) on a hand-writ
 LEVEL_TEXT = ('Histories of commits on one object, repeated equal declarations, falsy / absent callables and every door into '
               'ActionState.actions (method, tuples, dicts) are part of the compared input space. Run-level theorems for re-entrant commits: '
               'phase monotonicity, one action per discriminator, None-discriminated actions all run once, a late addition is refused '
-              '(C04_late_addition_refused) and a refusal names the phase of the last executed action; the full equality with spec_exec '
+              '(C04_late_addition_refused), a refusal names the phase of the last executed action, at every step the action handed out is '
+              'the first pending action of the smallest pending phase (C04_run_first_pending), a raising callable cuts the run '
+              '(C04_raising_callable_cuts_the_run); the full equality with spec_exec '
               'for re-entrant programs is compared on every case, not proved. '
               'Machine-checked theorems about an executable model of execute_actions/resolveConflicts that follows the '
               'code statement by statement (generator suspension included); the declarative commit specification is a '
@@ -398,7 +402,7 @@ def gen_case(rng, small=False):
         # all) and, in direct mode, through which door the action enters ActionState.actions (method, old-style tuple
         # of several lengths, ready-made dict)
         if rng.random() < 0.3:
-            ck = rng.choice([1, 1, 2, 3, 4, 5, 6])
+            ck = rng.choice([1, 1, 2, 3, 4, 5, 6, 7])
             if ck != 6 or not adds:
                 a['ck'] = ck
         if mode == 'direct' and rng.random() < 0.25:
@@ -572,7 +576,7 @@ def valid(case):
                 return False
             if not isinstance(a['id'], int) or not 0 <= a['id'] < 1000:
                 return False
-            if a.get('ck', 0) not in range(7) or a.get('tf', 0) not in range(5):
+            if a.get('ck', 0) not in range(8) or a.get('tf', 0) not in range(5):
                 return False
             if a.get('ck', 0) == 6 and a['adds']:
                 return False                # no callable, nothing to declare
@@ -656,18 +660,36 @@ def _nocall(case):
     return {a['id'] for a in _all_actions(case) if a.get('ck', 0) == 6}
 
 
+def _raisers(case):
+    return {a['id'] for a in _all_actions(case) if a.get('ck', 0) == 7}
+
+
 def from_wire(case, raw):
     if raw == [['bad']] or not isinstance(raw, list) or len(raw) != 6:
         return {'model': ['MODEL-BAD', raw], 'spec': None}
     nc = _nocall(case)
+    rs = _raisers(case)
+    hit = [False]
 
     def vis(ol):
         # an action without a callable is executed like any other (the model's Run event = "its turn came"); only there
         # is no callable whose call the harness could observe
         return [ol[0], [e for e in ol[1] if not (e[0] == 0 and e[1] in nc)]] if nc else ol
+
+    def cut(ol):
+        # a raising callable cuts the run right after it started (theorem C04_raising_callable_cuts_the_run: the run
+        # with raising callables is that prefix of the plain run) and the outcome is the ConfigurationExecutionError
+        if rs:
+            for k, e in enumerate(ol[1]):
+                if e[0] == 0 and e[1] in rs:
+                    hit[0] = True
+                    return [['EXC', 'ConfigurationExecutionError', 'RuntimeError'], ol[1][:k + 1]]
+        return ol
     m_commit, s_commit, s_exec, flags, m_resolve, later = raw
-    return {'model': [vis(m_commit), m_resolve, [vis(r[0]) for r in later]],
-            'spec': [vis(s_commit), vis(s_exec), flags, [[vis(r[1]), vis(r[2]), r[3]] for r in later]]}
+    model = [vis(cut(m_commit)), m_resolve, [vis(cut(r[0])) for r in later]]
+    spec = [vis(s_commit), vis(s_exec), flags, [[vis(r[1]), vis(r[2]), r[3]] for r in later]]
+    # the property says nothing about a commit in which a callable raises: only the correspondence is checked then
+    return {'model': model, 'spec': None if hit[0] else spec}
 
 
 # ------------------------------------------------------------------ implementation
@@ -824,7 +846,7 @@ def _wrap_callable(ck, body):
         return _Holder(body).method
     if ck == 6:
         return None                     # an action without a callable: it still claims its discriminator
-    return body
+    return body                         # (ck == 7: the body itself raises, see _make_callables)
 
 
 def _call_args(a):
@@ -844,6 +866,8 @@ def _make_callables(case, cur, declare):
 
             def call(*args, **kw):
                 cur[0].append([0, a['id']] if (args, kw) == (want_args, want_kw or {}) else [9, a['id'], 'args'])
+                if a.get('ck', 0) == 7:
+                    raise RuntimeError('c04: the callable of a%d raises' % a['id'])   # after it started, before it declares
                 for b in a['adds']:
                     declare(b)
             calls[a['id']] = _wrap_callable(a.get('ck', 0), call)
@@ -1106,6 +1130,10 @@ def kinds(case, obs):
         k.append('callable-partial-or-method')
     if 6 in cks:
         k.append('callable-none')
+    if 7 in cks:
+        k.append('callable-raises')
+        if any(o and o[0] == 'EXC' and o[1] == 'ConfigurationExecutionError' for o in [out] + [o for o, _ in obs[2]]):
+            k.append('callable-raises-reached')
     tfs = {a.get('tf', 0) for a in _all_actions(case)}
     if tfs & {1, 2, 3}:
         k.append('declared-as-tuple')
